@@ -205,6 +205,13 @@ pub fn admin_menu() -> Vec<Op> {
         v.push(Op::ReceiveUnstaked { sender: p.clone(), batch: 1, funds: Funds::Native });
         v.push(Op::Withdraw { sender: p.clone(), batch: 1 });
     }
+    // forced recovery of transfers addressed to the caller itself (a native-chain account can be a sender when both
+    // chains share a prefix): still admin-only
+    for (p, ids) in [(P::N1, vec![6u64]), (P::N1, vec![7]), (P::StakerAcct, vec![3]), (P::StakerAcct, vec![5]), (P::StakerAcct, vec![2, 4]), (P::U(0), vec![5]), (P::Admin, vec![5])] {
+        for r in [Some("self"), Some("n1"), Some("staker")] {
+            v.push(Op::Recover { sender: p.clone(), paginated: None, selected: Some(ids.clone()), receiver: r, faults: vec![] });
+        }
+    }
     // the third user is a configured monitor in configuration variant 2
     v.push(Op::Breaker { sender: P::U(2) });
     for w in 1..5 {
@@ -332,8 +339,8 @@ pub fn cases(suite: &str, tier: &str, seed: u64, props: &BTreeSet<String>) -> Ve
         }
         "admin" => {
             // authorization matrix on a structure with packets, batches in every status, and a nomination pending
-            for cfg in [CfgSpec::base(), CfgSpec { treasury: false, oracle: false, same_prefix: false, stopped: true, variant: 0 }, CfgSpec { variant: 1, ..CfgSpec::base() }, CfgSpec { variant: 2, ..CfgSpec::base() }] {
-                for s in scen::core_structures(&cfg).into_iter().filter(|s| s.name.ends_with("/packets") || s.name.ends_with("/rec+sub+pend")) {
+            for cfg in [CfgSpec::base(), CfgSpec { treasury: false, oracle: false, same_prefix: false, stopped: true, variant: 0 }, CfgSpec { variant: 1, ..CfgSpec::base() }, CfgSpec { variant: 2, ..CfgSpec::base() }, CfgSpec { same_prefix: true, ..CfgSpec::base() }] {
+                for s in scen::core_structures(&cfg).into_iter().filter(|s| s.name.ends_with("/packets") || s.name.ends_with("/rec+sub+pend") || (cfg.same_prefix && s.name.ends_with("/refund2"))) {
                     for op in admin_menu() {
                         out.push(step_case(s.clone(), op, env));
                     }
